@@ -679,6 +679,9 @@ func main() {
 			}
 		}
 	}
+	t0 := time.Now()
+	sizeTier(a, res)
+	res.Note(fmt.Sprintf("size-boundary family (implementation only, payloads up to 16 MiB): %d ms", time.Since(t0).Milliseconds()))
 	genTier(a, rng.Fork(), res, cc, inputs)
 	sc := streamTier(a, rng.Fork(), res, inputs)
 	cs.Close()
